@@ -497,6 +497,14 @@ def run_batch(ctx, *, tag, scripts, pkg_rel, pkgname, files, test, trace_module,
     traces = split_traces(events)
 
     handle_validation(ctx, v, events, tag, lambda i: scripts[i] if i < len(scripts) else None)
+    ownp = outp + ".own"
+    if os.path.exists(ownp) and os.path.getsize(ownp) > 0:
+        # objects the code handed out, rendered at hand-out time and again at the end of their script (Handout.tla)
+        own = read_ndjson(ownp)
+        if any(e.get("a") == "own" for e in own):
+            v2 = validate(ctx, "Trace_Handout.tla", ownp, timeout=tlc_timeout)
+            handle_validation(ctx, v2, own, tag + " (handed-out objects)", lambda i: scripts[i] if i < len(scripts) else None)
+            ctx.cov["handed_out_objects_rechecked"] = ctx.cov.get("handed_out_objects_rechecked", 0) + sum(1 for e in own if e.get("a") == "own")
     if nontrivial is not None:
         seen = set()
         for _, evs in traces:
